@@ -13,18 +13,22 @@ from harness.lifecycle import quiet
 _MESH_CACHE = {}
 
 
-def build_mesh(elem, dim, variant=0):
+def build_mesh(elem, dim, variant=0, shape="box"):
     from EasyFEA import Mesher
     from EasyFEA.FEM import ElemType
-    from EasyFEA.Geoms import Domain, Point, Line
+    from EasyFEA.Geoms import Domain, Point, Line, Circle
 
-    key = (elem, dim, variant)
+    key = (elem, dim, variant, shape)
     if key in _MESH_CACHE:
         return _MESH_CACHE[key]
     et = ElemType(elem)
     h = [1.6, 1.1][variant]
     with quiet():
-        if et in ElemType.Get_1D():
+        if shape == "round":
+            # disk of diameter 2 (cylinder of height 3/2): elements of degree >= 2 along the rim have curved edges
+            circle = Circle(Point(0.3, -0.2), 2.0, [1.2, 0.9][variant])
+            mesh = Mesher().Mesh_2D(circle, [], et) if et in ElemType.Get_2D() else Mesher().Mesh_Extrude(circle, [], [0, 0, 1.5], [1 if variant == 0 else 2], et)
+        elif et in ElemType.Get_1D():
             mesh = Mesher().Mesh_1D(Line(Point(0, 0), Point(3, 0), 1.5 if variant == 0 else 0.8), et)
         elif et in ElemType.Get_2D():
             mesh = Mesher().Mesh_2D(Domain(Point(0, 0), Point(3, 2), h), [], et)
@@ -44,11 +48,11 @@ def build(cfg, variant=0):
     phys, dim, elem = cfg["phys"], cfg["dim"], cfg["elem"]
     with quiet():
         if phys == "elastic":
-            mesh = build_mesh(elem, dim, variant)
+            mesh = build_mesh(elem, dim, variant, cfg.get("shape", "box"))
             mat = Models.Elastic.Isotropic(dim, E=10.0, v=0.25, planeStress=True, thickness=th)
             sim = Simulations.Elastic(mesh, mat, verbosity=False)
         elif phys == "thermal":
-            mesh = build_mesh(elem, dim, variant)
+            mesh = build_mesh(elem, dim, variant, cfg.get("shape", "box"))
             mat = Models.Thermal(k=2.0, c=1.0, thickness=th)
             sim = Simulations.Thermal(mesh, mat, verbosity=False)
         else:
@@ -105,7 +109,7 @@ def analyse(sim, cfg, which=("K", "M")):
     out = []
     phys, dim, elem = cfg["phys"], cfg["dim"], cfg["elem"]
     K, C, M, F = [m.toarray() for m in sim.Get_K_C_M_F()]
-    tag = f"{phys}{dim}D/{elem}" + (f"/{cfg['dir']}" if phys.startswith("beam") and cfg.get("dir", "ur") != "ur" else "")
+    tag = f"{phys}{dim}D/{elem}" + (f"/{cfg['dir']}" if phys.startswith("beam") and cfg.get("dir", "ur") != "ur" else "") + ("/round" if cfg.get("shape", "box") == "round" else "")
     used = np.unique(np.concatenate([g.connect.ravel() for g in sim.mesh.Get_list_groupElem()]))
     dofn = sim.Get_dof_n()
     dofs = (used[:, None] * dofn + np.arange(dofn)[None, :]).ravel()
@@ -145,6 +149,9 @@ def analyse(sim, cfg, which=("K", "M")):
                 out.append((f"M-psd/{tag}", f"beam mass matrix of {tag} has a negative eigenvalue {w.min():.3g}"))
         ntr = 1 if phys == "thermal" else dim
         exp = float(Fraction(*cfg["_massSum"]))
+        if cfg.get("_massFrom", "domain") == "mesh":
+            # round domains: the measure is the one of the mesh (settled by C07), the table gives rho * thickness only
+            exp = float(Fraction(*cfg["rho"])) * float(Fraction(*cfg["thick"])) * (sim.mesh.area if dim == 2 else sim.mesh.volume)
         for d in range(ntr):
             idx = np.arange(d, Md.shape[0], dofn)
             tot = Md[np.ix_(idx, idx)].sum()
@@ -160,6 +167,7 @@ def _job(job):
     cfg["_kernel"] = case["kernel"]
     cfg["_massSum"] = case["massSum"]
     cfg["_massDefinite"] = case["massDefinite"]
+    cfg["_massFrom"] = case.get("massFrom", "domain")
     try:
         sim = build(cfg, variant)
         res = analyse(sim, cfg, which)
@@ -167,7 +175,7 @@ def _job(job):
         import traceback
 
         return {"viol": [(f"build-raises/{cfg['phys']}{cfg['dim']}D/{cfg['elem']}", f"{type(ex).__name__}: {ex} {traceback.format_exc()[-400:]}", {"case": case})], "n": 1, "keys": [], "traces": 1}
-    return {"viol": [(k, m, {"case": case, "variant": variant}) for k, m in res], "n": 1, "keys": [(cfg["phys"], cfg["dim"], cfg["elem"], tuple(cfg["rho"]), tuple(cfg["thick"]), variant)], "traces": 1}
+    return {"viol": [(k, m, {"case": case, "variant": variant}) for k, m in res], "n": 1, "keys": [(cfg["phys"], cfg["dim"], cfg["elem"], tuple(cfg["rho"]), tuple(cfg["thick"]), cfg.get("dir"), cfg.get("shape"), variant)], "traces": 1}
 
 
 def kernel_checks(ctx, which=("K", "M"), label="C02", thorough=None):
